@@ -26,7 +26,8 @@ VARIABLE cell
 vars == <<cell>>
 
 Ops == {"multiply_sequence", "add_sequence", "einsum", "multiply_chain", "maximum_chain", "where", "matmul", "stack",
-        "focal_loss", "softmax_crossentropy", "multiclass_hinge", "conv_nd", "max_pool", "batchnorm", "prod", "cumprod", "var"}
+        "focal_loss", "softmax_crossentropy", "multiclass_hinge", "conv_nd", "max_pool", "batchnorm", "prod", "cumprod", "var",
+        "gru", "arctan2", "softmax", "logsoftmax", "selu", "norm", "std", "margin_ranking", "minimum_chain", "getitem_adv", "repeat"}
 Cells == {[op |-> op, order |-> p, g1 |-> g[1], g2 |-> g[2], reuse |-> r] :
             op \in Ops, p \in 1..2, g \in {<<1, 1>>, <<1, 2>>, <<2, 3>>}, r \in BOOLEAN}
 Relevant(c) == TRUE
